@@ -677,6 +677,174 @@ fn run_e2e(c: &E2eCase) -> Outcome {
 	o
 }
 
+// ---------------------------------------------------------------------------------------------
+// A start that fails: the executable is missing at the moment the handler (re)starts the command, and is
+// back afterwards. The policy must go on as documented once the command can be spawned again.
+
+#[derive(Clone, Debug, Serialize, Deserialize)]
+pub struct SpawnFaultCase {
+	/// 1 queue, 2 restart (the modes that start the command in reaction to a change while it runs)
+	pub mode: u8,
+	/// the command exits by itself after this many ms
+	pub exit_after: u16,
+	pub debounce: u16,
+	/// further mid-run changes after the recovery (each must be followed by a run that started after it)
+	pub later_changes: u8,
+}
+
+fn run_spawn_fault(c: &SpawnFaultCase) -> Outcome {
+	let mut o = Outcome::pass();
+	o.nontrivial = true;
+	let logs = Logs::new("vh-c05f-");
+	let queue = c.mode % 2 == 1;
+	o.label(if queue { "spawn-fault:queue" } else { "spawn-fault:restart" });
+	let link = logs.dir.path().join("the-command");
+	if let Err(e) = std::os::unix::fs::symlink(helper_path(), &link) {
+		o.fail("env:symlink", e.to_string());
+		return o;
+	}
+	let base = C05Case {
+		mode: if queue { 1 } else { 2 },
+		shorthand: false,
+		stop_signal: 0,
+		stop_timeout: 300,
+		delay_run: None,
+		debounce: c.debounce,
+		cmd: 0,
+		exit_after: c.exit_after,
+		changes: vec![],
+		with_signal: false,
+		spelling: 0,
+	};
+	let mut av = argv(&base, &logs);
+	for a in av.iter_mut() {
+		if *a == helper_path().into_os_string() {
+			*a = link.clone().into_os_string();
+		}
+	}
+	let exit_ms = u64::from(c.exit_after);
+	let rt = tokio::runtime::Builder::new_multi_thread().worker_threads(2).enable_all().build().unwrap();
+	let res: Result<(), (String, String)> = rt.block_on(async {
+		let env = |e: String| ("env:setup".to_string(), e);
+		let args = watchexec_cli::verif::args_from(av).await.map_err(|e| env(format!("args: {e:?}")))?;
+		let state = watchexec_cli::verif::new_state(&args).await.map_err(|e| env(format!("state: {e:?}")))?;
+		let config = watchexec_cli::verif::make_config(&args, &state).map_err(|e| env(format!("config: {e:?}")))?;
+		let wx = Watchexec::with_config(config).map_err(|e| env(e.to_string()))?;
+		let mut main = wx.main();
+		wx.send_event(Event::default(), Priority::Urgent).await.map_err(|e| env(e.to_string()))?;
+		let wait_runs = |n: usize, ms: u64| {
+			let logs = &logs;
+			async move {
+				let until = Instant::now() + Duration::from_millis(ms);
+				while parse_runs(logs).0.len() < n && Instant::now() < until {
+					tokio::time::sleep(Duration::from_millis(5)).await;
+				}
+				parse_runs(logs).0.len() >= n
+			}
+		};
+		let wait_idle = |ms: u64| {
+			let logs = &logs;
+			async move {
+				let until = Instant::now() + Duration::from_millis(ms);
+				loop {
+					let (runs, _) = parse_runs(logs);
+					let busy = runs.last().map_or(false, |r| r.end.is_none() && crate::props::c08::alive(r.pid));
+					if !busy || Instant::now() > until {
+						return !busy;
+					}
+					tokio::time::sleep(Duration::from_millis(5)).await;
+				}
+			}
+		};
+		if !wait_runs(1, 6_000).await {
+			return Err(("startup:no-run".into(), "the command was not started at start-up".into()));
+		}
+		// 1. a change while run 1 is clearly under way; the executable disappears before the handler starts the
+		//    command again (queue: when run 1 ends; restart: right after the stop)
+		tokio::time::sleep(Duration::from_millis(150)).await;
+		std::fs::remove_file(&link).map_err(|e| env(e.to_string()))?;
+		wx.send_event(change_event(1), Priority::Normal).await.map_err(|e| env(e.to_string()))?;
+		// run 1 is over (by itself or stopped) and the failed start has had time to happen
+		if !wait_idle(exit_ms + 3_000).await {
+			return Err(("env:run-1-did-not-end".into(), String::new()));
+		}
+		tokio::time::sleep(Duration::from_millis(u64::from(c.debounce) + 400)).await;
+		let n_before = parse_runs(&logs).0.len();
+		if n_before != 1 {
+			return Err(("env:started-although-missing".into(), format!("{n_before} runs although the executable was missing")));
+		}
+		// 2. the executable is back; a change while nothing runs starts the command
+		std::os::unix::fs::symlink(helper_path(), &link).map_err(|e| env(e.to_string()))?;
+		let mut n_sent = 1;
+		let mut runs_expected = 1;
+		// the failed start may have left the job "to be started" in queue mode: either way one change while idle
+		// must get the command running (give it two chances: the first may only report the earlier failure)
+		for _ in 0..2 {
+			n_sent += 1;
+			wx.send_event(change_event(n_sent), Priority::Normal).await.map_err(|e| env(e.to_string()))?;
+			if wait_runs(runs_expected + 1, 2_500).await {
+				break;
+			}
+		}
+		if parse_runs(&logs).0.len() < runs_expected + 1 {
+			return Err(("spawn-fault:idle-change-starts-nothing".into(), "after a failed start (executable missing, now back) two changes while nothing runs did not start the command within 2.5 s each".into()));
+		}
+		runs_expected = parse_runs(&logs).0.len();
+		// 3. back to normal: every change while the command runs is followed by a run that started after it
+		for k in 0..c.later_changes.max(1) {
+			// clearly mid-run of the newest run
+			let (runs, _) = parse_runs(&logs);
+			let last = runs.last().cloned().unwrap();
+			let el = (mono_ns().saturating_sub(last.start) / 1_000_000) as u64;
+			if last.end.is_some() || !crate::props::c08::alive(last.pid) || el + 400 > exit_ms {
+				// too late for this run: get a fresh one with an idle change
+				if !wait_idle(exit_ms + 3_000).await {
+					return Err(("env:run-did-not-end".into(), String::new()));
+				}
+				tokio::time::sleep(Duration::from_millis(200)).await;
+				n_sent += 1;
+				wx.send_event(change_event(n_sent), Priority::Normal).await.map_err(|e| env(e.to_string()))?;
+				if !wait_runs(runs_expected + 1, 3_000).await {
+					return Err(("spawn-fault:idle-change-starts-nothing".into(), format!("later change {k}: a change while nothing runs did not start the command within 3 s")));
+				}
+				runs_expected = parse_runs(&logs).0.len();
+			}
+			tokio::time::sleep(Duration::from_millis(150)).await;
+			n_sent += 1;
+			let before = mono_ns();
+			wx.send_event(change_event(n_sent), Priority::Normal).await.map_err(|e| env(e.to_string()))?;
+			// a run that started after the change: in queue mode after the current one ended by itself
+			if !wait_runs(runs_expected + 1, exit_ms + 3_000).await {
+				return Err((
+					if queue { "spawn-fault:queue:mid-run-change-not-followed-by-a-run" } else { "spawn-fault:restart:mid-run-change-not-followed-by-a-run" }.into(),
+					format!("after a failed start and a recovery, change {n_sent} sent while the command was running was not followed by a further run within {} ms", exit_ms + 3_000),
+				));
+			}
+			let (runs, _) = parse_runs(&logs);
+			runs_expected = runs.len();
+			if runs.last().map_or(0, |r| r.start) < before {
+				return Err(("spawn-fault:run-older-than-change".into(), format!("the newest run started before change {n_sent} was sent")));
+			}
+		}
+		let _ = wx.send_event(Event { tags: vec![Tag::Source(Source::Os), Tag::Signal(Signal::Terminate)], metadata: Default::default() }, Priority::Urgent).await;
+		let _ = tokio::time::timeout(Duration::from_secs(5), &mut main).await;
+		main.abort();
+		Ok(())
+	});
+	rt.shutdown_timeout(Duration::from_millis(300));
+	let (runs, overlaps) = parse_runs(&logs);
+	kill_all(&logs.pids());
+	let dump = || format!("\ncase {c:?}\nruns {runs:?}");
+	if overlaps > 0 {
+		o.fail("overlap", format!("a run found the lock held by another run{}", dump()));
+		return o;
+	}
+	if let Err((sig, msg)) = res {
+		o.fail(&sig, format!("{msg}{}", dump()));
+	}
+	o
+}
+
 pub fn check(e: &Engine) {
 	e.assume("real time and real processes: 'clearly mid-run' = >= 150 ms after the start and, for a command that exits by itself, at least 400 ms + debounce + --delay-run before its scheduled exit (so the handler acts while it still runs even if it is late by the whole slack); 'signal not delivered' / 'no stop signal' need the run to have been alive a full slack after the change; 'clearly idle' = >= 150 ms after the end; changes aimed at a boundary only assert non-overlap, freshness and 'at most one extra run'; a failure must reproduce 3 times (freshness failures, which depend on a select! race the harness does not own and are protected by a > 1.3 s quiescence wait: once more in 5 re-executions)");
 	e.assume("the queue-mode window between 'queued start processed' and the reset of the queued flag is microseconds wide and is not reached by real-time generation (DESIGN.md §5)");
@@ -707,6 +875,16 @@ pub fn check(e: &Engine) {
 		&run,
 	);
 	e.require_label("on-busy", "mid-run-change", 0.4);
+	e.explore(
+		"spawn-fault",
+		LegOpts::realtime(
+			e.tier.pick(12, 200),
+			12,
+			"queue and restart modes with a command (run through a per-case symbolic link, -n) that exits by itself after 600-900 ms: the link is removed while run 1 is under way and a change is sent, so that the start the handler attempts next fails (ENOENT); then the link is restored: a change while nothing runs must start the command again, and each of 1-2 later changes sent clearly mid-run must be followed by a run that started after it (queue: after the current run ended; restart: after the stop); no overlap throughout",
+		),
+		&|| (1u8..3, prop_oneof![Just(600u16), Just(750), Just(900)], 20u16..50, 1u8..3).prop_map(|(mode, exit_after, debounce, later_changes)| SpawnFaultCase { mode, exit_after, debounce, later_changes }).boxed(),
+		&run_spawn_fault,
+	);
 	e.explore(
 		"cli-startup",
 		LegOpts::realtime(e.tier.pick(8, 80), 4, "the real binary with and without --postpone and -r, one real file change in the watched directory: first run at start-up unless postponed, a change starts / restarts the command, no overlap"),
